@@ -25,7 +25,7 @@ static const char *WRONG[] = {"1.5", "1e10", "1.0", "\"1700000000\"", "true", "n
 static const int NWRONG = 10;
 static const long long EXTREME[] = {LLONG_MIN, -1, 0, LLONG_MAX, 1, LLONG_MAX - 1, LLONG_MIN + 1};
 static const int NEXT = 7;
-// kinds for string claims: 0 absent, 1 equal, 2 prefix, 3 suffix-extended, 4 case change, 5 empty, 6 pool[sv], 7 wrong type idx, 8 escaped NUL, 9 trailing space
+// kinds for string claims: 0 absent, 1 equal, 2 prefix, 3 suffix-extended, 4 case change, 5 empty, 6 pool[sv], 7 wrong type idx, 8 escaped NUL, 9 trailing space, 10-15 long extensions
 static const char *SWRONG[] = {"1", "true", "null", "[\"issuer\"]", "{\"v\":\"issuer\"}", "1.5"};
 
 struct Model {
@@ -43,6 +43,9 @@ static std::string confuse(const std::string &e, int kind, int sv) {
   case 5: return "";
   case 6: return POOLSTR[sv % NPOOL];
   case 9: return e + " ";
+  // the expected value followed by 255 / 256 / 257 / 512 / 65536 / 65537 further characters (length differences that vanish in 8 or 16 bits)
+  case 10: return e + std::string(255, 'x'); case 11: return e + std::string(256, 'x'); case 12: return e + std::string(257, 'x');
+  case 13: return e + std::string(512, 'y'); case 14: return e + std::string(65536, 'z'); case 15: return e + std::string(65537, 'z');
   }
   return e;
 }
@@ -63,7 +66,7 @@ static Built build_payload(const Model &m, const Op &o) {
   timeclaim("exp", o.expk, o.expd, m.exp_on ? m.now - m.exp_lee : m.now, b.has_exp, b.exp_int, b.exp);
   timeclaim("nbf", o.nbfk, o.nbfd, m.nbf_on ? m.now + m.nbf_lee : m.now, b.has_nbf, b.nbf_int, b.nbf);
   for (int i = 0; i < 3; i++) {
-    int kind = o.sk[i] % 10; std::string e = m.on[i] ? m.val[i] : POOLSTR[o.sv[i] % NPOOL];
+    int kind = o.sk[i] % 16; std::string e = m.on[i] ? m.val[i] : POOLSTR[o.sv[i] % NPOOL];
     if (kind == 0) continue;
     b.has[i] = true;
     if (kind == 7) { p += std::string(",\"") + TN[i] + "\":" + SWRONG[o.sv[i] % 6]; b.klass += std::string(TN[i]) + "=wrongtype "; continue; }
@@ -192,11 +195,12 @@ int main(int argc, char **argv) {
       o.expk = *rc::gen::weightedElement<int>({{2, 0}, {8, 1}, {1, 2}, {2, 3}, {1, 4}}); o.nbfk = *rc::gen::weightedElement<int>({{3, 0}, {8, 1}, {1, 2}, {2, 3}, {1, 4}});
       o.expd = *UNI<long long>(0, 1LL << 42); o.nbfd = *UNI<long long>(0, 1LL << 42);
       if (o.expk == 4 && *UNI(0, 2)) o.expd = -o.expd; if (o.nbfk == 4 && *UNI(0, 2)) o.nbfd = -o.nbfd;
-      for (int k = 0; k < 3; k++) { o.sk[k] = *rc::gen::weightedElement<int>({{2, 0}, {6, 1}, {1, 2}, {1, 3}, {1, 4}, {1, 5}, {1, 6}, {1, 7}, {1, 8}, {1, 9}}); o.sv[k] = *UNI(0, 1 << 10); }
+      for (int k = 0; k < 3; k++) { o.sk[k] = *rc::gen::weightedElement<int>({{2, 0}, {6, 1}, {1, 2}, {1, 3}, {1, 4}, {1, 5}, {1, 6}, {1, 7}, {1, 8}, {1, 9}, {1, 10}, {2, 11}, {1, 12}, {1, 13}, {1, 14}, {1, 15}}); o.sv[k] = *UNI(0, 1 << 10); }
     }
     return o;
   });
   bool ok = rc::check("C04: verdict == claim policy of the most recent configuration", [&]() {
+    if (v::shrink_exhausted()) return;
     int len = *UNI(1, 18);
     std::vector<Op> ops = *rc::gen::container<std::vector<Op>>(len, genOp);
     std::string r = run_ops(ops, true);
@@ -204,7 +208,7 @@ int main(int argc, char **argv) {
       std::string sig = "C04:" + r;
       if (st.is_known(sig)) { st.known_hits[sig]++; return; }
       lastfail = ops; lastwhy = r; lasttrace = TRACE;
-      RC_FAIL(r);
+      v::fail_seen()++; RC_FAIL(r);
     }
   });
   if (!ok && !lastwhy.empty()) { TRACE = lasttrace; st.violation("C04:" + lastwhy, "verdict / return code / claim_get differs from the reference claim policy: " + lastwhy + " | " + lasttrace.substr(0, 700), case_json(lastfail)); }
